@@ -95,8 +95,15 @@ Definition lower1 (c : byte) : byte :=
 
 (* ------------------------------------------------------------------ int(v), float(v) *)
 
+(* int() and float() skip a narrower set of blanks than str.strip(): the C isspace characters and, beyond ASCII, U+0085 and
+   U+00A0; the information separators 0x1c-0x1f are whitespace for str.strip()/split() but int('7\x1f') is a ValueError *)
+Definition is_space_num (c : byte) : bool := match c with x1c | x1d | x1e | x1f => false | _ => is_space c end.
+Fixpoint lstrip_num (s : str) : str :=
+  match s with c :: r => if is_space_num c then lstrip_num r else s | [] => [] end.
+Definition strip_num (s : str) : str := rev (lstrip_num (rev (lstrip_num s))).
+Definition all_space_num (s : str) : bool := forallb is_space_num s.
 (* int(str): surrounding whitespace, optional sign, decimal digits ('_' grouping is excluded by wf) *)
-Definition py_int (v : str) : option Z := Z_of_dec (strip_ws v).
+Definition py_int (v : str) : option Z := Z_of_dec (strip_num v).
 
 (* decimal literal kept exactly (DESIGN 5.3): value = (-1)^neg * mant * 10^e10 *)
 Inductive flit := FNum (neg : bool) (mant : Z) (e10 : Z) | FInf (neg : bool) | FNan.
@@ -115,7 +122,7 @@ Definition split_sign (s : str) : bool * str :=
   end.
 (* float(str): [ws] [sign] (inf|infinity|nan | digits [. digits] | . digits) [e [sign] digits] [ws] *)
 Definition py_float (v : str) : option flit :=
-  let '(neg, s) := split_sign (strip_ws v) in
+  let '(neg, s) := split_sign (strip_num v) in
   let l := map lower1 s in
   if str_eqb l (bs "inf"%bs) || str_eqb l (bs "infinity"%bs) then Some (FInf neg)
   else if str_eqb l (bs "nan"%bs) then Some FNan
